@@ -17,7 +17,9 @@ EXTENDS Integers, Sequences, FiniteSets, TLC, Json, IOUtils
 P == INSTANCE Product WITH MaxP <- 0, MaxB <- 0, Vals <- {}, Bug <- "none", nP <- 0, nB <- 0, pos <- <<>>, rot <- <<>>,
                            full <- <<>>, phase <- ""
 Log == JsonDeserialize(IOEnv.TRACE_FILE)
-VARIABLE l
+VARIABLES l,
+          fam      \* which family carries the factor f: "unknown" until a grid with f # 1 decides it, then "position" or "rotation";
+                   \* "applied uniformly to one of the two families" means the SAME family for every grid
 Rec == Log[l]
 ToSet(s) == {s[i] : i \in 1 .. Len(s)}
 Pat(s) == {<<e[1], e[2]>> : e \in ToSet(s)}
@@ -34,7 +36,7 @@ Want(r, posM, rotM, scale, posScaled, n, m) ==
   IN IF b1 = b2 THEN (IF posScaled THEN scale[posM[p1 + 1][p2 + 1]] ELSE posM[p1 + 1][p2 + 1])
      ELSE (IF posScaled THEN rotM[b1 + 1][b2 + 1] ELSE scale[rotM[b1 + 1][b2 + 1]])
 
-Clause(r) ==
+ClauseG(r, verdict) ==
   LET n == r.nP * r.nB
       pA == TLCEval(DensePat(r.posA))  rA == TLCEval(DensePat(r.rotA))
       fA == TLCEval(Pat(r.fullA))
@@ -46,7 +48,10 @@ Clause(r) ==
       okWith(posScaled) ==
          /\ \A e \in tB : e[3] = Want(r, r.posB, r.rotB, mF2, posScaled, e[1], e[2])
          /\ \A e \in tD : e[3] = Want(r, r.posD, r.rotD, mF, posScaled, e[1], e[2])
-  IN IF r.err # "" THEN "exception:" \o r.err
+  IN IF ~verdict THEN (IF r.err # "" \/ Len(r.vol) # n THEN "unknown"
+                       ELSE IF okWith(TRUE) /\ ~okWith(FALSE) THEN "position"
+                       ELSE IF okWith(FALSE) /\ ~okWith(TRUE) THEN "rotation" ELSE "unknown")
+     ELSE IF r.err # "" THEN "exception:" \o r.err
      ELSE IF Len(r.vol) # n THEN "number of volumes"
      ELSE IF \E p \in fA : p[1] = p[2] THEN "diagonal entry"
      ELSE IF \E p \in fA : <<p[2], p[1]>> \notin fA THEN "adjacency not symmetric"
@@ -59,15 +64,23 @@ Clause(r) ==
      ELSE IF \E e \in tB : <<e[2], e[1], e[3]>> \notin tB THEN "borders not symmetric"
      ELSE IF \E e \in tD : <<e[2], e[1], e[3]>> \notin tD THEN "distances not symmetric"
      ELSE IF ~(okWith(TRUE) \/ okWith(FALSE)) THEN "an entry is not the position / rotation quantity with f (f^2) applied to one family"
+     ELSE IF (fam = "position" /\ ~okWith(TRUE)) \/ (fam = "rotation" /\ ~okWith(FALSE))
+          THEN "the factor f is applied to another family than in the other grids"
      ELSE IF \E k \in 0 .. (n - 1) : r.vol[k + 1] # r.volTable[(k \div r.nB) + 1][(k % r.nB) + 1]
           THEN "6D volume is not position volume x rotation volume x f^3 in cell order"
      ELSE "ok"
 
-Init == l = 1 /\ TLCSet(1, 0)
+Clause(r) == ClauseG(r, TRUE)
+FamilyOf(r) ==     \* "position" / "rotation" if exactly one assignment explains this grid, else "unknown"
+  LET a == ClauseG(r, FALSE) IN
+  IF a = "position" \/ a = "rotation" THEN a ELSE "unknown"
+
+Init == l = 1 /\ fam = "unknown" /\ TLCSet(1, 0)
 Step == /\ l <= Len(Log)
         /\ LET c == Clause(Rec) IN IF c = "ok" THEN TRUE ELSE PrintT(<<"REJECT", Rec.tid, c, 0>>)
+        /\ fam' = IF fam = "unknown" /\ Clause(Rec) = "ok" THEN FamilyOf(Rec) ELSE fam
         /\ TLCSet(1, l)
         /\ l' = l + 1
-Spec == Init /\ [][Step]_l
+Spec == Init /\ [][Step]_<<l, fam>>
 AllConsumed == TLCGet(1) = Len(Log)
 =============================================================================
